@@ -201,6 +201,47 @@ def reasonableRF {W : Type} (A : WArith W) (m : Msa) (wgt : List W) : Option Byt
     some <| (List.range m.alen).map fun apos =>
       rfColumn A isRes isGapLike (((m.rows.take m.nseq).map (fun r => r.getD apos 0)).zip wgt)
 
+/-! ## esl_msa_ReasonableRF (useconsseq = TRUE, digital mode) -/
+
+/-- binary32 counts fed by binary64 weights: what `esl_abc_FCount` / `esl_vec_FArgMax` need; the driver instantiates it
+    with `Float32` -/
+structure CArith (W C : Type) where
+  zero : C
+  ofW : W → C            -- `(float) msa->wgt[idx]`
+  add : C → C → C
+  divNat : C → Nat → C   -- `wt / (float) abc->ndegen[x]`
+  gt : C → C → Bool
+
+/-- `esl_abc_FCount(abc, ct, x, wt)` on a count vector `ct[0..K-1]` for a RESIDUE code `x`: a canonical residue counts
+    for itself, a degenerate one is divided equally over the residues it stands for -/
+def fCount {C : Type} (add : C → C → C) (divNat : C → Nat → C) (a : Abc) (ct : List C) (x : UInt8) (wt : C) : List C :=
+  if x.toNat < a.K then ct.modify x.toNat (fun c => add c wt)
+  else (List.range a.K).foldl (fun ct y =>
+    if (a.degen.getD x.toNat []).getD y false then ct.modify y (fun c => add c (divNat wt (a.ndegen.getD x.toNat 0)))
+    else ct) ct
+
+/-- `esl_vec_FArgMax(vec, n)`: the first index of a maximal element (`>` comparisons from index 1 on) -/
+def fArgMax {C : Type} (gt : C → C → Bool) (d : C) (v : List C) : Nat :=
+  (List.range v.length).foldl (fun best i => if i ≥ 1 && gt (v.getD i d) (v.getD best d) then i else best) 0
+
+/-- `esl_msa_ReasonableRF(msa, symfrac, TRUE, rfline)` on a DIGITAL alignment: a consensus column carries the symbol of the
+    residue with the largest weighted count. On a text-mode alignment (or any alignment without alphabet) the C code
+    dereferences `msa->abc == NULL` in its first statement: `none` = that fault (known finding
+    `C15:esl_msa_ReasonableRF:text-useconsseq-null-abc`, patch proposed). -/
+def reasonableRFCons {W C : Type} (A : WArith W) (B : CArith W C) (m : Msa) (wgt : List W) : Option Bytes :=
+  if !m.isDigital then none
+  else match m.abc with
+    | none => none
+    | some a =>
+      some <| (List.range m.alen).map fun apos =>
+        let cells := ((m.rows.take m.nseq).map (fun r => r.getD apos 0)).zip wgt
+        let acc := cells.foldl (fun (acc : W × W × List C) cw =>
+          if a.xIsResidue cw.1 then
+            (A.add acc.1 cw.2, A.add acc.2.1 cw.2, fCount B.add B.divNat a acc.2.2 cw.1 (B.ofW cw.2))
+          else if a.xIsGap cw.1 then (acc.1, A.add acc.2.1 cw.2, acc.2.2)
+          else acc) (A.zero, A.zero, List.replicate a.K B.zero)
+        if A.isCons acc.1 acc.2.1 then a.sym.getD (fArgMax B.gt B.zero acc.2.2) 0 else 0x2e
+
 /-! ## esl_msa_AppendGC -/
 
 /-- `esl_msa_AddComment(msa, p, n)`: the line is stored at the end of `comment[]` (grown by doubling from 16) -/
